@@ -87,6 +87,11 @@ impl StepOracle for C13Oracle {
             classes.push("x:excluded-router-holds-assets");
             return Verdict::Pass;
         }
+        if *receiver == w.router.as_str() {
+            // proceeds addressed to the router itself stay in the router by definition
+            classes.push("x:excluded-router-is-recipient");
+            return Verdict::Pass;
+        }
         if self.extra_funds {
             // a further coin of a denom the route does not trade: the sender's ledger carries it to the router,
             // which is outside the statement's settlement (only the input is consumed)
